@@ -161,7 +161,16 @@ class Report:
         replay_paths = []
         if unlisted and write:
             vdir.mkdir(parents=True, exist_ok=True)
-        for n, v in enumerate(unlisted):
+        per_rule = {}
+        shown = []
+        for v in unlisted:
+            per_rule[v.rule] = per_rule.get(v.rule, 0) + 1
+            if per_rule[v.rule] <= 8:
+                shown.append(v)
+        for rule, cnt in per_rule.items():
+            if cnt > 8:
+                lines.append(f"info: rule {rule}: {cnt - 8} further violations of the same rule not listed individually")
+        for n, v in enumerate(shown):
             p = vdir / f"{self.prop}-{n}.json"
             if write:
                 p.write_text(json.dumps(v.to_json(), indent=1))
